@@ -131,7 +131,7 @@ def plan(ctx):
                                                  '1.17', '1.12', '1.10')))
         tiers.append((1, False, 0, ('1.39', '1.28'), ()))
     else:
-        tiers.append((0, False, 2, ('1.39', '1.28'), tuple(acq.VERSIONS)))
+        tiers.append((0, False, 2, ('1.39',), tuple(acq.VERSIONS)))
         tiers.append((1, False, 1, ('1.39',), ('1.28',)))
         tiers.append((2, True, 0, ('1.39',), ()))
     cases = []
